@@ -140,6 +140,8 @@ for nm in ("register", "unregister"):
            doc=f"module-level alias of _resource_tracker.{nm}")
     cc = S.ext(f"mp.ResourceTracker.{nm}", cite=f"multiprocessing.resource_tracker.ResourceTracker.{nm}(name, rtype): ensure_running() then one '{nm.upper()}:name:rtype' line")
     cc.param("self", T.Ref("ResourceTracker")).param("name", T.Obj).param("rtype", T.Obj).event(f"tracker_{nm}", "name", "rtype").modifies()
+    # ensure_running() may fail to start the tracker (OSError), the line may not be ASCII (UnicodeEncodeError) or exceed 512 bytes (ValueError)
+    cc.may_raise.append(("Exception", None))
 
 # ---------------------------------------------------------------- C13
 c = M.contract("SemLock._make_name", props=["C13"])
@@ -171,10 +173,18 @@ c.ensures("semlock/registered-under-the-created-name-then-finalizer-installed",
           "log_count('finalize') == 1 and log_arg('finalize', 0, 0) is self and log_arg('finalize', 0, 1) is SemLock._cleanup and "
           "log_arg('finalize', 0, 2)[0] == self._semlock.name and log_before('sem_create', 'tracker_register') and log_before('tracker_register', 'finalize'))", prop="C13")
 c.ensures("semlock/generated-names-are-in-the-loky-namespace", "implies(is_none(name), self._semlock.name.startswith('/loky-'))", prop="C13")
-c.raises("semlock/no-registration-without-a-semaphore", "BaseException", post="tail(log_count('sem_create') == 0 and log_count('tracker_register') == 0)", prop="C13")
-c.modifies("self._semlock", "self.name", "G.sem_created", "G.sem_val")
+# a constructor that raises leaves no owning object behind, hence no finalizer: either nothing was created, or the semaphore whose registration failed (tracker
+# not startable, name not ASCII) was unlinked before the error was passed on; it must not stay in the namespace untracked for ever
+c.raises("semlock/a-failed-construction-leaves-no-semaphore-behind", "BaseException",
+         post="tail(log_count('sem_create') == 0 and log_count('tracker_register') == 0) or "
+              f"tail(log_count('sem_create') == 1 and log_count('cleanup') == 1 and log_arg('cleanup', 0, 0) == 'semlock' and log_arg('cleanup', 0, 1) == {CREATED}.name and "
+              "log_count('finalize') == 0)", prop="C13")
+c.replay_for("semlock/a-failed-construction-leaves-no-semaphore-behind", "semlock_registration_fails")
+# the constructor is the one place besides _cleanup and the tracker that may unlink (structural scan below): only on its error path, only what it just created
+c.ensures("semlock/a-constructed-semaphore-is-not-unlinked-by-its-constructor", "G.cleanup_semlock == old(G.cleanup_semlock) and G.cleanup_seq == old(G.cleanup_seq)", prop="C13")
+c.modifies("self._semlock", "self.name", "G.sem_created", "G.sem_val", "G.cleanup_semlock", "G.cleanup_seq")
 i = M.invariant("SemLock.__init__", 0, "for _ in range(100):")
-i.inv("nothing-created-yet", "G.sem_created == old(G.sem_created) and G.sem_val == old(G.sem_val)")
+i.inv("nothing-created-yet", "G.sem_created == old(G.sem_created) and G.sem_val == old(G.sem_val) and G.cleanup_semlock == old(G.cleanup_semlock) and G.cleanup_seq == old(G.cleanup_seq)")
 i.iter_post("a-failed-attempt-creates-nothing", "log_count('sem_create') == 0", prop="C13")
 
 c = M.contract("SemLock._cleanup", props=["C13"])
@@ -211,26 +221,30 @@ c.ensures("ctor/semaphore-counts-from-value-without-bound", f"log_count('{INIT}'
           f"log_arg('{INIT}', 0, 4) == SEM_VALUE_MAX and log_arg('{INIT}', 0, 1) is self"
           " and fresh(self._semlock) and self._semlock.kind == SEMAPHORE and self._semlock.value0 == value and self._semlock.maxvalue == SEM_VALUE_MAX and G.sem_val[self._semlock] == value and forall(Int, lambda s: implies(s != obj_id(self._semlock), G.sem_val[s] == old(G.sem_val[s])))")
 c.raises("ctor/creation-errors-propagate", "BaseException")
-c.modifies("self._semlock", "self.name", "G.sem_created", "G.sem_val")
+c.ensures("a-successful-construction-unlinks-nothing", "G.cleanup_semlock == old(G.cleanup_semlock) and G.cleanup_seq == old(G.cleanup_seq)")
+c.modifies("self._semlock", "self.name", "G.sem_created", "G.sem_val", "G.cleanup_semlock", "G.cleanup_seq")
 c = M.contract("BoundedSemaphore.__init__", props=["C14"])
 c.param("self", T.Ref("BoundedSemaphore")).param("value", T.Int, default=VInt(1))
 c.ensures("ctor/bounded-semaphore-refuses-release-above-value", f"log_count('{INIT}') == 1 and log_arg('{INIT}', 0, 2) == SEMAPHORE and log_arg('{INIT}', 0, 3) == value and "
           f"log_arg('{INIT}', 0, 4) == value and log_arg('{INIT}', 0, 1) is self"
           " and fresh(self._semlock) and self._semlock.kind == SEMAPHORE and self._semlock.value0 == value and self._semlock.maxvalue == value and G.sem_val[self._semlock] == value and forall(Int, lambda s: implies(s != obj_id(self._semlock), G.sem_val[s] == old(G.sem_val[s])))")
 c.raises("ctor/creation-errors-propagate", "BaseException")
-c.modifies("self._semlock", "self.name", "G.sem_created", "G.sem_val")
+c.ensures("a-successful-construction-unlinks-nothing", "G.cleanup_semlock == old(G.cleanup_semlock) and G.cleanup_seq == old(G.cleanup_seq)")
+c.modifies("self._semlock", "self.name", "G.sem_created", "G.sem_val", "G.cleanup_semlock", "G.cleanup_seq")
 c = M.contract("Lock.__init__", props=["C14"])
 c.param("self", T.Ref("Lock"))
 c.ensures("ctor/lock-is-a-binary-semaphore", f"log_count('{INIT}') == 1 and log_arg('{INIT}', 0, 2) == SEMAPHORE and log_arg('{INIT}', 0, 3) == 1 and log_arg('{INIT}', 0, 4) == 1"
           " and fresh(self._semlock) and self._semlock.kind == SEMAPHORE and self._semlock.value0 == 1 and self._semlock.maxvalue == 1 and G.sem_val[self._semlock] == 1 and forall(Int, lambda s: implies(s != obj_id(self._semlock), G.sem_val[s] == old(G.sem_val[s])))")
 c.raises("ctor/creation-errors-propagate", "BaseException")
-c.modifies("self._semlock", "self.name", "G.sem_created", "G.sem_val")
+c.ensures("a-successful-construction-unlinks-nothing", "G.cleanup_semlock == old(G.cleanup_semlock) and G.cleanup_seq == old(G.cleanup_seq)")
+c.modifies("self._semlock", "self.name", "G.sem_created", "G.sem_val", "G.cleanup_semlock", "G.cleanup_seq")
 c = M.contract("RLock.__init__", props=["C14"])
 c.param("self", T.Ref("RLock"))
 c.ensures("ctor/rlock-is-a-recursive-mutex", f"log_count('{INIT}') == 1 and log_arg('{INIT}', 0, 2) == RECURSIVE_MUTEX and log_arg('{INIT}', 0, 3) == 1 and log_arg('{INIT}', 0, 4) == 1"
           " and fresh(self._semlock) and self._semlock.kind == RECURSIVE_MUTEX and self._semlock.value0 == 1 and self._semlock.maxvalue == 1 and G.sem_val[self._semlock] == 1 and forall(Int, lambda s: implies(s != obj_id(self._semlock), G.sem_val[s] == old(G.sem_val[s])))")
 c.raises("ctor/creation-errors-propagate", "BaseException")
-c.modifies("self._semlock", "self.name", "G.sem_created", "G.sem_val")
+c.ensures("a-successful-construction-unlinks-nothing", "G.cleanup_semlock == old(G.cleanup_semlock) and G.cleanup_seq == old(G.cleanup_seq)")
+c.modifies("self._semlock", "self.name", "G.sem_created", "G.sem_val", "G.cleanup_semlock", "G.cleanup_seq")
 
 c = M.contract("SemLock.__enter__", props=["C14"])
 c.param("self", T.Ref("SemLock"))
@@ -274,7 +288,8 @@ c.ensures("cond/representation-invariant-established-with-all-three-counters-at-
           f"implies(lock is not None, G.sem_val[{LK}] == old(G.sem_val[lock._semlock]))")
 c.ensures("cond/default-lock-is-a-recursive-lock", "implies(lock is None, fresh(self._lock) and log_count('call:RLock.__init__') == 1)")
 c.raises("cond/creation-errors-propagate", "BaseException")
-c.modifies("self._lock", "self._sleeping_count", "self._woken_count", "self._wait_semaphore", "G.sem_created", "G.sem_val")
+c.ensures("a-successful-construction-unlinks-nothing", "G.cleanup_semlock == old(G.cleanup_semlock) and G.cleanup_seq == old(G.cleanup_seq)")
+c.modifies("self._lock", "self._sleeping_count", "self._woken_count", "self._wait_semaphore", "G.sem_created", "G.sem_val", "G.cleanup_semlock", "G.cleanup_seq")
 
 c = M.contract("Condition._make_methods", props=["C14"])
 c.param("self", T.Ref("Condition"))
@@ -434,7 +449,8 @@ c.param("self", T.Ref("Event"))
 c.ensures("event/starts-clear-over-a-fresh-condition-with-a-plain-lock",
           f"G.sem_val[{FLAG}] == 0 and {EV_DISTINCT} and self._cond._lock._semlock.kind == SEMAPHORE and self._cond._lock._semlock.maxvalue == 1")
 c.raises("event/creation-errors-propagate", "BaseException")
-c.modifies("self._cond", "self._flag", "G.sem_created", "G.sem_val")
+c.ensures("a-successful-construction-unlinks-nothing", "G.cleanup_semlock == old(G.cleanup_semlock) and G.cleanup_seq == old(G.cleanup_seq)")
+c.modifies("self._cond", "self._flag", "G.sem_created", "G.sem_val", "G.cleanup_semlock", "G.cleanup_seq")
 
 # the module-level name generator installed on multiprocessing.synchronize.SemLock (loky/backend/__init__.py)
 MB = Module("loky.backend")
@@ -457,11 +473,13 @@ for nm, params, argspec in (("Semaphore", [("value", T.Int, VInt(1))], "v == val
     lam = f"lambda r, s, v: s is result and {argspec}" if argspec else "lambda r, s: s is result"
     c.ensures(f"factory/builds-one-loky-{nm}-with-the-callers-arguments", f"cls_is(result, '{nm}') and count_events('call:{nm}.__init__', {lam}) == 1")
     c.raises("factory/creation-errors-propagate", "BaseException")
-    c.modifies("G.sem_created", "G.sem_val")
+    c.ensures("a-successful-construction-unlinks-nothing", "G.cleanup_semlock == old(G.cleanup_semlock) and G.cleanup_seq == old(G.cleanup_seq)")
+    c.modifies("G.sem_created", "G.sem_val", "G.cleanup_semlock", "G.cleanup_seq")
 c = MC.contract("LokyContext.Condition", props=["C14"])
 c.param("self", T.Ref("LokyContext")).param("lock", T.Ref("SemLock", nullable=True), default=NONE)
 c.returns(T.Ref("Condition"), fresh=True)
 c.ensures("factory/builds-one-loky-Condition-over-the-callers-lock", "cls_is(result, 'Condition') and implies(lock is not None, result._lock is lock) and "
           "count_events('call:Condition.__init__', lambda r, s, l: s is result) == 1")
 c.raises("factory/creation-errors-propagate", "BaseException")
-c.modifies("G.sem_created", "G.sem_val")
+c.ensures("a-successful-construction-unlinks-nothing", "G.cleanup_semlock == old(G.cleanup_semlock) and G.cleanup_seq == old(G.cleanup_seq)")
+c.modifies("G.sem_created", "G.sem_val", "G.cleanup_semlock", "G.cleanup_seq")
